@@ -150,6 +150,15 @@ pub fn build(a: &LensArgs) -> LensCfg {
             cfg.drop_menu = a.drop_menu.clone().unwrap_or_else(|| vec![0, 1]);
             cfg.action_menu = a.action_menu.clone().unwrap_or_else(|| vec![]);
         },
+        // Cleaners with automatic collections on: Cleaner::register allocates its action map lazily with Cc::new, which
+        // may start a collection whose finalizers use the same Cleaner
+        "autoclean" => {
+            cfg.name = "autoclean";
+            cfg.codes = codes(&[New, Dup, Drop, Store, Collect, Register, Clean, DropCleanable, SetFin]);
+            cfg.fin_menu = a.fin_menu.clone().unwrap_or_else(|| vec![0, 20]);
+            cfg.action_menu = a.action_menu.clone().unwrap_or_else(|| vec![0]);
+            cfg.auto_lens = true;
+        },
         // dyn with automatic collections on (seed family ga: thresholds prepared by the construction prefix)
         "dynauto" => {
             cfg.name = "dynauto";
